@@ -308,6 +308,9 @@ func c15conc(s *Sexp) string {
 		waiter := w.asProcessor(u).Background(ctx, 0)
 		goroutines, callsEach = 1, G
 		call = func() string { return c15resStr(0, waiter(ctx)) }
+	case "plaunch":
+		waiter := w.asProducer(u).Launch(ctx)
+		call = func() string { return c15resStr(waiter(ctx)) }
 	case "wstartgroup":
 		waiter := w.asWorker(u).StartGroup(ctx, n)
 		call = func() string {
